@@ -61,7 +61,7 @@ TABLE = {
           "Not modelled: IEEE rounding, normality and sample moments (labelled statistical tests), scipy's svd/qr/cholesky are oracles whose contracts (U E V^T = Sigma, orthogonality, Q R = input) are evaluated exactly per run; that U E U^T = Sigma follows for PSD Sigma is proved.", "3/C17"),
   "C02": ("Lean 4 / Mathlib Matrix proofs plus an exact rational model with run-time-certified inverse and LDL^T; model proved equal to the Matrix expressions",
           "Proved for all fields, sizes and inputs: the model's mean, variance (both code branches) and covariance are the closed-form conditional Gaussian with GLS coefficients; covariance symmetric and PSD (Schur complement), variance >= 0, floor laws; invariance under permutation of observations and batch shape; interpolation; prior reversion; GP-sum linear / squared-weight / PSD laws; lie data = conditioning on the augmented data set; design-matrix monomials. Hypotheses (A Ainv = 1, L D L^T = A, D > 0, A symmetric) are checked exactly on every input; the implementation is compared at all six entry points, reversed batches, a permuted copy and every lie stage within max(1e-12, 64 eps cond(A)) scale; its covariance output is certified PSD by an exact LDL^T.",
-          "IEEE rounding absorbed by the tolerance only; kernel matrices come from the library's covariance methods (C03); kernel Gram PSD is a hypothesis; gradients are C04.", "3/C02"),
+          "IEEE rounding absorbed by the tolerance only; kernel matrices come from the library's covariance methods (C03); the kernel Gram PSD hypothesis is discharged over the reals for the library's kernels (composition with C03), and kept for the rational list model whose entries are computed floats; gradients are C04.", "3/C02"),
   "C06": ("exact request->plan model in Lean (reusing the C09/C12/C13/C14 models) + endpoint value vs libsigopt's compute layer instantiated from the Lean plan",
           "Proved for every well-formed request, phase and sort outcome: the plan handed to the compute layer is total and shape-consistent; each GP is built from its metric's own column and hyperparameters; lies last, worst value, lie noise; failures carry the lie; scaled range and sign (via C12); one-hot encoding with task column (via C09); the acquisition-function / failure-model / threshold / cost decision table; epsilon thresholds. The endpoint value is tied on every run to the compute layer evaluated on the Lean plan within 1e-8 relative plus measured rounding noise.",
           "Numeric GP/EI/PF evaluation is delegated to C02/C03/C05; qEI is seed-matched; ties on which the property is silent (argsort among equal lies, epsilon label on an exact tie) handled liberally.", "3/C06"),
